@@ -177,13 +177,19 @@ C05_CODEC = [
     H("c05_mpi_bits32", "c05_codec", "thorough", 600, "MPI declared 32 bits, magnitude arbitrary: strip leading zeros, exact bit count, canonical identity", ["types::Mpi::{try_from_reader,to_writer,write_len}", "parsing_reader::BufReadParsing::take_bytes"], "32 bits"),
     H("c05_mpi_bits16385", "c05_codec", "quick", 600, "MPI declared 16385 bits (over the 16384 cap), magnitude arbitrary: strip leading zeros, exact bit count, canonical identity", ["types::Mpi::{try_from_reader,to_writer,write_len}", "parsing_reader::BufReadParsing::take_bytes"], "16385 bits (over the 16384 cap)"),
 ]
+SEC_F = ["types::SecretParams::{from_slice,to_writer,write_len,string_to_key_id,has_sha1_checksum}", "types::params::secret::parse_secret_fields", "types::EncryptedSecretParams::{new,to_writer,write_len}"]
 C05_MUT = [
+    H("c05_details_write_len", "c05_sigmut", "quick", 900, "SignedKeyDetails with one direct-key signature: write_len == octets written (tag + length + body)", ["composed::SignedKeyDetails::{to_writer,write_len}", "packet::Signature::{to_writer,write_len}", "packet::PacketTrait::{to_writer_with_header,write_len_with_header}"], "creation time symbolic"),
+    H("c08_usage_254", "c08_secret", "quick", 900, "locked secret material, usage 254: octet kept, SHA-1 check selected, identical re-serialisation", SEC_F, "22 symbolic octets"),
+    H("c08_usage_255", "c08_secret", "quick", 900, "usage 255: octet kept, checksum (not SHA-1) selected, identical re-serialisation", SEC_F, "22 symbolic octets"),
+    H("c08_usage_legacy_7", "c08_secret", "thorough", 900, "legacy usage (cipher octet 7)", SEC_F, "22 symbolic octets"),
+    H("c08_usage_253", "c08_secret", "thorough", 900, "usage 253 (AEAD/OCB)", SEC_F, "21 symbolic octets"),
     H("c05_keyflags_setters", "c05_sigmut", "quick", 600, "KeyFlags built through every subset of setters: write_len == octets written, RFC bit positions", ["packet::KeyFlags::{default,set_*,to_writer,write_len}"], "10 symbolic booleans"),
     H("c05_unhashed_push_remove_small", "c05_sigmut", "quick", 900, "Signature::unhashed_subpacket_push/remove with a 1-octet-length subpacket: header length == original", ["packet::Signature::{unhashed_subpacket_push,unhashed_subpacket_insert,unhashed_subpacket_remove}", "packet::Subpacket::write_len"], "original header length 10..70000 symbolic"),
     H("c05_unhashed_push_remove_2octet_len", "c05_sigmut", "quick", 900, "same with a 196-octet subpacket (2-octet subpacket length)", ["packet::Signature::{unhashed_subpacket_push,unhashed_subpacket_insert,unhashed_subpacket_remove}", "packet::Subpacket::write_len"], "original header length symbolic"),
 ]
 PROPS["C05"] = {
-    "inject": [("src/lib.rs", "c05_codec"), ("src/lib.rs", "c17_codec"), ("src/packet/signature/types.rs", "c05_sigmut")],
+    "inject": [("src/lib.rs", "c05_codec"), ("src/lib.rs", "c17_codec"), ("src/packet/signature/types.rs", "c05_sigmut"), ("src/lib.rs", "c08_secret")],
     "mem_gb": 12,
     "level_text": "Bounded model checking of the real parsers/serialisers: for every byte string of the stated lengths the solver "
                   "shows parse/serialise are mutually inverse, write_len equals the octets written and canonical inputs "
